@@ -198,47 +198,70 @@ def appendAfter (t : ObjectTree) (obj arg nextTo : Nat) : Res ObjectTree := do
     let t ← t.upd nextTo fun n => { n with nextSiblingIndex := a.index }
     return t
 
-/-- `detach(obj, arg)` -/
-def detach (t : ObjectTree) (obj arg : Nat) : Res ObjectTree := do
+/-- `detach`, statement 1: `if obj.firstArgIndex == arg.index { obj.firstArgIndex = arg.nextSiblingIndex }` -/
+def detachFirst (t : ObjectTree) (obj arg : Nat) : Res ObjectTree := do
   let o ← t.obj obj
   let a ← t.obj arg
-  let t ← if o.firstArgIndex = a.index then
-      t.upd obj fun o => { o with firstArgIndex := a.nextSiblingIndex }
-    else pure t
-  let o ← t.obj obj
-  let a ← t.obj arg
-  let t ← if o.lastArgIndex = a.index then
-      t.upd obj fun o => { o with lastArgIndex := a.prevSiblingIndex }
-    else pure t
-  let a ← t.obj arg
-  let t ← if a.nextSiblingIndex ≠ InvalidIndex then do
-      let nx ← deref (t.ObjectAt a.nextSiblingIndex)
-      t.upd nx fun x => { x with prevSiblingIndex := a.prevSiblingIndex }
-    else pure t
-  let a ← t.obj arg
-  let t ← if a.prevSiblingIndex ≠ InvalidIndex then do
-      let pv ← deref (t.ObjectAt a.prevSiblingIndex)
-      t.upd pv fun x => { x with nextSiblingIndex := a.nextSiblingIndex }
-    else pure t
-  let t ← t.upd arg fun a => { a with prevSiblingIndex := InvalidIndex }
-  let t ← t.upd arg fun a => { a with nextSiblingIndex := InvalidIndex }
-  let t ← t.upd arg fun a => { a with parentIndex := InvalidIndex }
-  return t
+  if o.firstArgIndex = a.index then
+    t.upd obj fun o => { o with firstArgIndex := a.nextSiblingIndex }
+  else pure t
 
-/-- `free(obj)`; the explicit Go `panic("… still contains argument references")` is `.panic` -/
-def free (t : ObjectTree) (obj : Nat) : Res ObjectTree := do
+/-- `detach`, statement 2: `if obj.lastArgIndex == arg.index { obj.lastArgIndex = arg.prevSiblingIndex }` -/
+def detachLast (t : ObjectTree) (obj arg : Nat) : Res ObjectTree := do
   let o ← t.obj obj
-  let t ← if o.parentIndex ≠ InvalidIndex then do
-      let p ← deref (t.ObjectAt o.parentIndex)
-      t.detach p obj
-    else pure t
+  let a ← t.obj arg
+  if o.lastArgIndex = a.index then
+    t.upd obj fun o => { o with lastArgIndex := a.prevSiblingIndex }
+  else pure t
+
+/-- `detach`, statement 3: `if arg.nextSiblingIndex != InvalidIndex { ObjectAt(arg.next).prev = arg.prev }` -/
+def detachNext (t : ObjectTree) (arg : Nat) : Res ObjectTree := do
+  let a ← t.obj arg
+  if a.nextSiblingIndex ≠ InvalidIndex then do
+    let nx ← deref (t.ObjectAt a.nextSiblingIndex)
+    t.upd nx fun x => { x with prevSiblingIndex := a.prevSiblingIndex }
+  else pure t
+
+/-- `detach`, statement 4: `if arg.prevSiblingIndex != InvalidIndex { ObjectAt(arg.prev).next = arg.next }` -/
+def detachPrev (t : ObjectTree) (arg : Nat) : Res ObjectTree := do
+  let a ← t.obj arg
+  if a.prevSiblingIndex ≠ InvalidIndex then do
+    let pv ← deref (t.ObjectAt a.prevSiblingIndex)
+    t.upd pv fun x => { x with nextSiblingIndex := a.nextSiblingIndex }
+  else pure t
+
+/-- `detach`, statements 5–7: `arg.prev = Invalid; arg.next = Invalid; arg.parent = Invalid` -/
+def detachClear (t : ObjectTree) (arg : Nat) : Res ObjectTree :=
+  (t.upd arg fun a => { a with prevSiblingIndex := InvalidIndex }) >>= fun t =>
+  (t.upd arg fun a => { a with nextSiblingIndex := InvalidIndex }) >>= fun t =>
+  t.upd arg fun a => { a with parentIndex := InvalidIndex }
+
+/-- `detach(obj, arg)` (the seven statements in order) -/
+def detach (t : ObjectTree) (obj arg : Nat) : Res ObjectTree :=
+  t.detachFirst obj arg >>= fun t => t.detachLast obj arg >>= fun t =>
+  t.detachNext arg >>= fun t => t.detachPrev arg >>= fun t => t.detachClear arg
+
+/-- `free`, first statement: `if obj.parentIndex != InvalidIndex { detach(ObjectAt(obj.parentIndex), obj) }` -/
+def freeDetach (t : ObjectTree) (obj : Nat) : Res ObjectTree := do
+  let o ← t.obj obj
+  if o.parentIndex ≠ InvalidIndex then do
+    let p ← deref (t.ObjectAt o.parentIndex)
+    t.detach p obj
+  else pure t
+
+/-- `free`, the rest: the explicit `panic` if arguments remain, then the push on the free list -/
+def freePush (t : ObjectTree) (obj : Nat) : Res ObjectTree := do
   let o ← t.obj obj
   if o.firstArgIndex ≠ InvalidIndex ∨ o.lastArgIndex ≠ InvalidIndex then
     throw .panic
-  let t ← t.upd obj fun o => { o with opcode := pOpIntFreedObject }
-  let t ← t.upd obj fun o => { o with nextSiblingIndex := t.freeListHeadIndex }
-  let o ← t.obj obj
-  return { t with freeListHeadIndex := o.index }
+  else
+    (t.upd obj fun o => { o with opcode := pOpIntFreedObject }) >>= fun t =>
+    (t.upd obj fun o => { o with nextSiblingIndex := t.freeListHeadIndex }) >>= fun t =>
+    t.obj obj >>= fun o => pure { t with freeListHeadIndex := o.index }
+
+/-- `free(obj)`; the explicit Go `panic("… still contains argument references")` is `.panic` -/
+def free (t : ObjectTree) (obj : Nat) : Res ObjectTree :=
+  t.freeDetach obj >>= fun t => t.freePush obj
 
 /-- `CreateDefaultScopes(tableHandle)`; `info` = `pOpcodeTableIndex(pOpIntScopeBlock, true)` -/
 def CreateDefaultScopes (t : ObjectTree) (info tableHandle : Nat) : Res ObjectTree := do
